@@ -14,9 +14,28 @@ class StoreModel:
                 dc = dashmap_call(t)
                 if dc and dc[1] == "S":
                     self.ops.setdefault(dc[0], []).append((f, bb, t))
-        self.insert_fns = {f.name for f, _, _ in self.ops.get("insert", [])}
+        # the store's *entry points* that insert / remove: a private helper of the store type doing the map operation for
+        # several of them (`insert_and_count`) is lifted to the functions of the same type that call it
+        def lifted(names):
+            out, seen = set(), set()
+            work = list(names)
+            while work:
+                n = work.pop()
+                if n in seen or n not in F.fns:
+                    continue
+                seen.add(n)
+                f_ = F.fns[n]
+                st_ = (f_.rec.get("self_ty") or "").split("<")[0]
+                callers = {g.name for g in F.fns.values() for b_, t_ in g.calls() if t_.get("rpath") == n and t_["res"] == "item"}
+                same = {c for c in callers if (F.fns[c].rec.get("self_ty") or "").split("<")[0] == st_ and F.fns[c].kind != "Closure"}
+                if callers and same == callers and st_:
+                    work += list(callers)
+                else:
+                    out.add(n)
+            return out
+        self.insert_fns = lifted({f.name for f, _, _ in self.ops.get("insert", [])})
         # by-key removals: `remove`, and the conditional `remove_if` / `remove_if_mut` (Some(..) iff an entry was taken out)
-        self.remove_fns = {f.name for m_ in ("remove", "remove_if", "remove_if_mut") for f, _, _ in self.ops.get(m_, [])}
+        self.remove_fns = lifted({f.name for m_ in ("remove", "remove_if", "remove_if_mut") for f, _, _ in self.ops.get(m_, [])})
         self.lookup_sites = [x for m in ("get", "get_mut", "contains_key") for x in self.ops.get(m, [])]
         # presence predicates: bool functions with one store lookup keyed by a parameter, judged on path-sensitive paths
         # (combinators, `matches!` with a guard, explicit branches alike):
